@@ -1386,6 +1386,13 @@ class RunMonitor:
         self.fl = None
         user_opts = dict(P.options)
         opts_copy = copy.deepcopy(user_opts)
+        ssp = self.spec.get("seed_spelling")
+        if ssp and isinstance(opts_copy.get("random_seed"), int):
+            # another valid spelling of the same integer seed (what np.arange / rng.integers hand over)
+            sv = opts_copy["random_seed"]
+            opts_copy["random_seed"] = {"npint64": np.int64(sv), "npint32": np.int32(sv % (2**31 - 1)), "0d": np.array(sv), "float": float(sv)}[ssp]
+            if ssp == "npint32":
+                P.options["random_seed"] = int(sv % (2**31 - 1))
         args = P.bads_args(self.spec.get("arg_spelling", "2d"))
         mon = self
 
